@@ -89,6 +89,6 @@ def signature(case, j):
     s = {"clause": j.failed_clause}
     dg = bytes.fromhex(case["datagram"])
     s["opcode"] = dg[:2].hex()
-    sc = case.get("script", [])
-    s["script_len"] = len(sc)
+    hs = case.get("handlers") or [{}]
+    s["handler"] = (hs[0].get("result") or {}).get("kind")
     return s
